@@ -201,7 +201,11 @@ class SMSimfile(BaseSimfile):
             if key == "NOTES":
                 self.charts.append(SMChart.from_msd(param.components[1:]))
             elif key in BaseSimfile.MULTI_VALUE_PROPERTIES:
-                self[key] = ":".join(param.components[1:])
+                self[key] = (
+                    ":".join(param.components[1:])
+                    if len(param.components) > 1
+                    else None
+                )
             else:
                 self[key] = param.value
 
